@@ -100,6 +100,7 @@ class Facts:
 		self._fieldacc = None
 		self.consts = {}
 		self.impls = []      # (trait, self_ty, method, trait_method)
+		self.impl_kind = {}  # method -> 'derived' | 'hand'
 		self.adts = collections.defaultdict(list)  # adt -> [(variant, field, ty, vis)]
 		self._cfg_idx = {}
 		self._cfg_files = {}
@@ -130,6 +131,8 @@ class Facts:
 				p = l.rstrip('\n').split('\t')
 				if len(p) >= 4:
 					self.impls.append((norm(p[0]), p[1], norm(p[2]), norm(p[3])))
+					if len(p) >= 5:
+						self.impl_kind[norm(p[2])] = p[4]
 			for l in open(os.path.join(d, 'adts.tsv')):
 				p = l.rstrip('\n').split('\t')
 				if len(p) >= 4:
